@@ -744,8 +744,14 @@ def run(ck, ctx):
         def on_table(e):
             return any(id(x) in tabs for x in e.data.get("roots", ()) or ())
 
+        cli_ins = {id(v) for v in ins.values()}
+
         def about_switch(c):
-            return sw_in is not None and any(x is sw_in for x in walk([c]))
+            if sw_in is not None:
+                return any(x is sw_in for x in walk([c]))
+            # the option was renamed: a condition made of command-line options only
+            leaves = [x for x in walk([c]) if x.op == "Input"]
+            return bool(leaves) and all(id(x) in cli_ins for x in leaves)
         seq = []
         for e in r.effects:
             chain = e.funcs()
